@@ -438,11 +438,56 @@ type Tx struct {
 
 var ctx = context.Background()
 
+// Rec records the DB-API calls of a step as terms of the Gallina op alphabet (Model/PageDB.v).
+type Rec struct{ Ops []string }
+
+func (r *Rec) add(f string, a ...any) {
+	if r != nil {
+		r.Ops = append(r.Ops, fmt.Sprintf(f, a...))
+	}
+}
+
+// PgTerm renders one page as the model's [pg] record: checksum and, for page 1, the header fields.
+func PgTerm(pgno uint32, data []byte) string {
+	hdrN, wal := uint32(0), "false"
+	if pgno == 1 && len(data) >= 100 {
+		hdrN = binary.BigEndian.Uint32(data[28:])
+		if data[18] == 2 && data[19] == 2 {
+			wal = "true"
+		}
+	}
+	return fmt.Sprintf("(mkPg %d %d %s)", PageChecksum(pgno, data), hdrN, wal)
+}
+func (r *Rec) Write(pgno uint32, data []byte) { r.add("OWrite %d %s", pgno, PgTerm(pgno, data)) }
+func (r *Rec) Truncate(n uint32)              { r.add("OTruncate %d", n) }
+func (r *Rec) CommitJournal(commit uint32)    { r.add("OCommitJournal %d", commit) }
+func (r *Rec) WalHeader()                     { r.add("OWalHeader") }
+func (r *Rec) WalTruncate()                   { r.add("OWalTruncate") }
+func (r *Rec) Checkpoint()                    { r.add("OCheckpoint") }
+func (r *Rec) Open()                          { r.add("OOpen") }
+func (r *Rec) Drop()                          { r.add("ODrop") }
+func (r *Rec) CommitWal(frames []WALFrameSpec, commit uint32) {
+	if r == nil {
+		return
+	}
+	s := "OCommitWal ["
+	for i, f := range frames {
+		if i > 0 {
+			s += ";"
+		}
+		s += fmt.Sprintf("(%d, %s)", f.Pgno, PgTerm(f.Pgno, f.Data))
+	}
+	r.add("%s] %d", s, commit)
+}
+
 type Pager struct {
-	DB       *litefs.DB
-	Owner    uint64
-	PageSize int
-	Nonce    uint32
+	Rec           *Rec
+	pending       []WALFrameSpec // frames written since the last capture point
+	pendingCommit uint32
+	DB            *litefs.DB
+	Owner         uint64
+	PageSize      int
+	Nonce         uint32
 	// WAL state of the simulated connection
 	walSalt1, walSalt2 uint32
 	walCk1, walCk2     uint32
@@ -588,6 +633,7 @@ func (p *Pager) RunRollbackTx(prev *Image, tx Tx, jm JournalMode, outcome Rollba
 		// valid journal header LiteFS treats finalisation as a commit of zero pages.
 		// Real SQLite zeroes/deletes the journal the same way, so this is the faithful sequence.
 		p.logf("rollback-before-write")
+		p.Rec.CommitJournal(uint32(len(prev.Pages)))
 		err := finalize()
 		unlockAll()
 		return err
@@ -633,6 +679,7 @@ func (p *Pager) RunRollbackTx(prev *Image, tx Tx, jm JournalMode, outcome Rollba
 			unlockAll()
 			return fmt.Errorf("write page %d: %w", pg, err)
 		}
+		p.Rec.Write(pg, writes[pg])
 	}
 	_ = db.SyncDatabase(ctx)
 	if outcome == RollbackAfterWrite {
@@ -642,6 +689,7 @@ func (p *Pager) RunRollbackTx(prev *Image, tx Tx, jm JournalMode, outcome Rollba
 				unlockAll()
 				return err
 			}
+			p.Rec.Write(pg, prev.Pages[pg-1])
 		}
 		// pages appended by the aborted tx are cut off by SQLite with a truncate to the original size
 		if tx.NewSize > uint32(len(prev.Pages)) && len(prev.Pages) > 0 {
@@ -649,17 +697,21 @@ func (p *Pager) RunRollbackTx(prev *Image, tx Tx, jm JournalMode, outcome Rollba
 				unlockAll()
 				return fmt.Errorf("rollback truncate: %w", err)
 			}
+			p.Rec.Truncate(uint32(len(prev.Pages)))
 		}
 		p.logf("rollback-after-write")
+		p.Rec.CommitJournal(uint32(len(prev.Pages)))
 		err := finalize()
 		unlockAll()
 		return err
 	}
+	p.Rec.CommitJournal(tx.NewSize)
 	if err := finalize(); err != nil {
 		unlockAll()
 		return fmt.Errorf("finalize: %w", err)
 	}
 	if tx.NewSize < uint32(len(prev.Pages)) {
+		p.Rec.Truncate(tx.NewSize)
 		if err := db.TruncateDatabase(ctx, int64(tx.NewSize)*int64(ps)); err != nil {
 			unlockAll()
 			return fmt.Errorf("post-commit truncate: %w", err)
@@ -739,6 +791,10 @@ func (p *Pager) EnsureWAL() {
 
 // EndWALWrite releases WRITE (this is where LiteFS captures the commit) and the read lock.
 func (p *Pager) EndWALWrite() {
+	if p.pendingCommit != 0 {
+		p.Rec.CommitWal(p.pending, p.pendingCommit)
+	}
+	p.pending, p.pendingCommit = nil, 0
 	_ = p.DB.Unlock(ctx, p.Owner, []litefs.LockType{litefs.LockTypeWrite})
 	_ = p.DB.Unlock(ctx, p.Owner, []litefs.LockType{litefs.LockTypeRead1})
 }
@@ -780,6 +836,7 @@ func (p *Pager) WriteWALFrames(frames []WALFrameSpec, commitSize uint32, split b
 		if err := db.WriteWALAt(ctx, wf, hdr, 0, o); err != nil {
 			return fmt.Errorf("wal header: %w", err)
 		}
+		p.Rec.WalHeader()
 		p.walCk1, p.walCk2 = c1, c2
 		p.walInit = true
 		p.walFrames = 0
@@ -811,6 +868,10 @@ func (p *Pager) WriteWALFrames(frames []WALFrameSpec, commitSize uint32, split b
 		}
 		p.walCk1, p.walCk2 = c1, c2
 		p.walFrames++
+		p.pending = append(p.pending, f)
+		if i == len(frames)-1 {
+			p.pendingCommit = commitSize
+		}
 	}
 	return nil
 }
